@@ -565,19 +565,14 @@ theorem dToks_expr : (e : Exp α) → Frag tok numOf e → ∀ ctx, ∀ tk ∈ d
 /-- the rendering is not empty (it lexes from a non-empty text: shown via the parser reading it) -/
 theorem dToks_ne_nil (e : Exp α) (h : Frag tok numOf e) : ∃ tk tl, dToks tok none e = tk :: tl := by
   obtain ⟨items, hk, _⟩ := tkShow tok numOf e h none
-  cases hd : dToks tok none e with
-  | cons tk tl => exact ⟨tk, tl, rfl⟩
-  | nil =>
-    exfalso
-    rw [hd] at hk
-    have := parse_tk hk
-    simp [parseToks, parseFuel, parseExp, collect, optUnary, leaf] at this
+  obtain ⟨tk, tl, e, _⟩ := tk_head hk
+  exact ⟨tk, tl, e⟩
 
 /-- one rendered expression followed by a terminator is read back as `toP e` -/
 theorem expAt_dToks (e : Exp α) (h : Frag tok numOf e) {rest : List Tok} (hc : Closed rest) :
     expAt (dToks tok none e ++ rest) = .ok (toP tok e, rest) := by
   obtain ⟨items, hk, _⟩ := tkShow tok numOf e h none
-  exact parseExp_of_main (tk_main hk).1 hk.toIR hc _ (by simp [parseFuel]; omega)
+  exact parseExp_of_main (tk_main hk).1 hk.toIR hc _ (by simp [parseFuel])
 
 /-- a compiled constraint of the fragment: expressions in `Frag`, a plain name that is not a keyword -/
 def FragC (c : Constraint α) : Prop :=
@@ -600,38 +595,32 @@ theorem parseConstraint_dToks (c : Constraint α) (h : FragC tok numOf c) :
       have := expAt_dToks tok numOf c.lhs hl (rest := []) (Or.inl rfl)
       simp only [List.append_nil] at this
       rw [this]
+      simp [optFor_nil]
     | false =>
       have hr' : Frag tok numOf c.rhs := by
         rcases hr with hr | hr
         · rw [ha] at hr; cases hr
         · exact hr
       simp only [Bool.false_eq_true, if_false]
-      rw [expAt_dToks tok numOf c.lhs hl (closed_of_term (cmpTok_term _) _)]
+      rw [expAt_dToks tok numOf c.lhs hl (closed_cmp _ _)]
       simp only [cmpOfTok_cmpTok]
       have := expAt_dToks tok numOf c.rhs hr' (rest := []) (Or.inl rfl)
       simp only [List.append_nil] at this
       rw [this]
+      simp [optFor_nil]
+  obtain ⟨items, hkl, _⟩ := tkShow tok numOf c.lhs hl none
   unfold parseConstraint constraintDToks toPConstraint
   by_cases hne : c.name.isEmpty = true
-  · -- no name: the second token is not `:`
+  · -- no name: behind the variable the expression may begin with, no `:` follows
     have hcn : constraintName (dToks tok none c.lhs ++ (if c.isAssert then [] else cmpTok (cmpOf c.cmp) :: dToks tok none c.rhs))
-        = (none, dToks tok none c.lhs ++ (if c.isAssert then [] else cmpTok (cmpOf c.cmp) :: dToks tok none c.rhs)) := by
+        = .ok (none, dToks tok none c.lhs ++ (if c.isAssert then [] else cmpTok (cmpOf c.cmp) :: dToks tok none c.rhs)) := by
       cases ha : c.isAssert with
       | true =>
-        obtain ⟨tk, tl, e⟩ := dToks_ne_nil tok numOf c.lhs hl
-        have hall := dToks_expr tok numOf c.lhs hl none
-        simp only [if_true, List.append_nil, e]
-        rw [e] at hall
-        cases tl with
-        | nil => cases tk <;> rfl
-        | cons t2 tl2 =>
-          have h2 : t2 ≠ .colon := by
-            intro e2; have := hall t2 (by simp); rw [e2] at this; cases this
-          cases tk <;> first | rfl | skip
-          cases t2 <;> first | rfl | exact absurd rfl h2
+        have := constraintName_none' hkl (rest := []) (by intro tl e; cases e) (by intro tl e; cases e)
+        simpa using this
       | false =>
-        have := constraintName_none (x := cmpTok (cmpOf c.cmp)) (tail := dToks tok none c.rhs)
-          (dToks_ne_nil tok numOf c.lhs hl) (dToks_expr tok numOf c.lhs hl none) (by cases c.cmp <;> simp [cmpTok, cmpOf])
+        have := constraintName_none hkl (x := cmpTok (cmpOf c.cmp)) (tail := dToks tok none c.rhs)
+          (by cases c.cmp <;> simp [cmpTok, cmpOf]) (by cases c.cmp <;> simp [cmpTok, cmpOf])
         simpa using this
     simp only [hne, if_true, List.nil_append, List.append_assoc]
     rw [hcn]
@@ -643,7 +632,10 @@ theorem parseConstraint_dToks (c : Constraint α) (h : FragC tok numOf c) :
       · exact hn
     obtain ⟨tk, tl, e⟩ := dToks_ne_nil tok numOf c.lhs hl
     have hx := dToks_expr tok numOf c.lhs hl none tk (by rw [e]; simp)
-    simp only [hne', Bool.false_eq_true, if_false, List.cons_append, List.nil_append, List.append_assoc, constraintName, hk]
+    have hcn := nameAt_plain hk (.colon :: (dToks tok none c.lhs ++ (if c.isAssert then [] else cmpTok (cmpOf c.cmp) :: dToks tok none c.rhs)))
+      (by intro tl e; cases e)
+    simp only [hne', Bool.false_eq_true, if_false, List.cons_append, List.nil_append, List.append_assoc, constraintName]
+    rw [hcn]
     have hsk : skipNl (dToks tok none c.lhs ++ (if c.isAssert then [] else cmpTok (cmpOf c.cmp) :: dToks tok none c.rhs)) =
         dToks tok none c.lhs ++ (if c.isAssert then [] else cmpTok (cmpOf c.cmp) :: dToks tok none c.rhs) := by
       rw [e]; exact skipNl_expr hx _
